@@ -482,9 +482,10 @@ func check(c Case) *vfrun.Failure {
 				helpers = true
 			}
 			if !helpers && onlyAdded {
-				if _, err := runBuild(dir); err == nil {
-					builtBefore = true
-				}
+				// "a package that compiled before": the state the user left it in with this edit (an
+				// edit that replaces a body can leave an import unused, which does not compile)
+				_, err := runBuild(dir)
+				builtBefore = err == nil
 			}
 		case "evolve":
 			if st.Op != "add-field" && st.Op != "add-type" {
